@@ -117,7 +117,10 @@ func famPlant(e *env, root *core.Rand, nPlans int, bks []string) {
 		n := len(storelib.Actions(mk()))
 		for k := 0; k < n; k++ {
 			bk := bks[(i+k)%len(bks)]
-			inAttempt := (i+k)%4 == 3
+			inAttempt := r.Fork(uint64(50+k)).Chance(0.35) // independent of the backend rotation
+			if bk == "cosmos-fake" && storelib.Hangs >= 3 {
+				continue
+			}
 			b, _, rec := open(bk)
 			o := other()
 			rec.IDs = []uuid.UUID{mk().ID, o.ID}
@@ -132,7 +135,49 @@ func famPlant(e *env, root *core.Rand, nPlans int, bks []string) {
 			// the clean plan with the same ids must now be creatable: nothing of the failed one is left
 			rec.Create(mk(), mk(), "create-clean")
 			e.emit("plant", i, bk, rec, true, map[string]any{"actions": n, "position": k, "where": where, "in_attempt": inAttempt, "via": "create"}, map[string]any{"position": k})
-			b.Close(ctx)
+			closeVault(b, rec)
+		}
+	}
+}
+
+// ---- family plantcz: cosmosdb, EVERY action position x {request, attempt response} ----
+// After the failed Create: Read must fail, Exists must be false, there must be no search entry, no item
+// of the plan may be left in the container (probed through the vault's own updater: a patch of an
+// item that is not there fails), and the clean plan with the same ids must then be creatable.
+func famPlantCosmos(e *env, root *core.Rand, nPlans int) {
+	for i := 0; i < nPlans; i++ {
+		r := root.Fork(uint64(1500 + i))
+		mk := maker(r.Fork(1), i%3, 0.1)
+		other := maker(r.Fork(2), 0, 0.1)
+		n := len(storelib.Actions(mk()))
+		for k := 0; k < n; k++ {
+			for _, inAttempt := range []bool{false, true} {
+				if storelib.Hangs >= 3 {
+					return // the hang is recorded in three cases already; each further one costs the deadline
+				}
+				b, _, rec := open("cosmos-fake")
+				o := other()
+				rec.IDs = []uuid.UUID{mk().ID, o.ID}
+				if k%2 == 0 {
+					rec.Create(other(), other(), "create-other")
+				}
+				give, ref := mk(), mk()
+				where := plant(give, k, inAttempt, true)
+				plant(ref, k, inAttempt, false)
+				rec.Create(give, ref, "create-planted")
+				// orphan items? patch some objects of the plan that must not exist
+				objs := storelib.ObjectsOf(ref)
+				st := storelib.RandState(r.Fork(uint64(90 + k)))
+				rec.UpdateBlock(ref.ID, objs.Blocks[0].ID, st)
+				a := storelib.Actions(ref)[k].A
+				rec.UpdateAction(ref.ID, a.ID, a.Plugin, st, nil, nil)
+				if len(objs.Seqs) > 0 {
+					rec.UpdateSequence(ref.ID, objs.Seqs[len(objs.Seqs)-1].ID, st)
+				}
+				rec.Create(mk(), mk(), "create-clean")
+				e.emit("plantcz", i, "cosmos-fake", rec, true, map[string]any{"actions": n, "position": k, "where": where, "in_attempt": inAttempt, "via": "create"}, map[string]any{"position": k, "in_attempt": inAttempt})
+				closeVault(b, rec)
+			}
 		}
 	}
 }
@@ -174,13 +219,13 @@ func famSubmit(e *env, root *core.Rand, nPlans int, bks []string) {
 			if p.ID == uuid.Nil || p.State == nil {
 				rec.Notes = append(rec.Notes, "panic-class: Submit left the plan without id/state: "+fmt.Sprint(serr))
 				e.emit("submit", i, bk, rec, true, map[string]any{"position": k}, nil)
-				b.Close(ctx)
+				closeVault(b, rec)
 				continue
 			}
 			rec.IDs = []uuid.UUID{p.ID}
 			rec.Created_(p, serr, "submit", "CCreate")
 			e.emit("submit", i, bk, rec, k >= 0, map[string]any{"actions": n, "position": k, "where": where, "via": "submit"}, map[string]any{"position": k})
-			b.Close(ctx)
+			closeVault(b, rec)
 		}
 	}
 }
@@ -216,7 +261,7 @@ func famDup(e *env, root *core.Rand, n int, bks []string) {
 			rec.Create(mk(), mk(), "create-duplicate")
 		}
 		e.emit("dup", i, bk, rec, true, nil, nil)
-		b.Close(ctx)
+		closeVault(b, rec)
 	}
 }
 
@@ -248,7 +293,7 @@ func famInterleave(e *env, root *core.Rand, n int, bks []string) {
 			}
 		}
 		e.emit("interleave", i, bk, rec, true, map[string]any{"plans": np}, nil)
-		b.Close(ctx)
+		closeVault(b, rec)
 	}
 }
 
@@ -285,7 +330,7 @@ func famCollide(e *env, root *core.Rand, n int, bks []string) {
 		rec.Delete(mkA().ID)
 		rec.Create(mkB(), mkB(), "create-after-delete-of-the-other")
 		e.emit("collide", i, bk, rec, true, map[string]any{"shared": choice % 5}, nil)
-		b.Close(ctx)
+		closeVault(b, rec)
 	}
 }
 
@@ -331,7 +376,7 @@ func famFault(e *env, root *core.Rand, n int) {
 			rec.Delete(other().ID)
 		}
 		e.emit("fault", i, "cosmos-fake", rec, true, map[string]any{"mode": mode}, nil)
-		b.Close(ctx)
+		closeVault(b, rec)
 	}
 }
 
@@ -417,12 +462,22 @@ func famKill(e *env, root *core.Rand, n int) {
 		rec.Created_(big(), nil, "create-killed", "CKilledCreate")
 		total, _ := b.TotalRows()
 		e.emit("kill", i, "sqlite-file", rec, true, map[string]any{"delay_us": delay.Microseconds(), "child_finished": finished, "total_rows": total}, nil)
-		b.Close(ctx)
+		closeVault(b, rec)
 	}
+}
+
+// closeVault closes the vault, unless a call into it never returned.
+func closeVault(b *storelib.Backend, rec *storelib.Rec) {
+	if rec != nil && rec.Dead {
+		b.Abandon()
+		return
+	}
+	b.Close(ctx)
 }
 
 func main() {
 	nPlant := flag.Int("plant", 6, "plans for the plant family (one case per action position)")
+	nPlantCz := flag.Int("plantcz", 3, "plans for the cosmosdb plant family (two cases per action position)")
 	nSubmit := flag.Int("submit", 4, "plans for the Submit family (one case per action position)")
 	nDup := flag.Int("dup", 12, "cases")
 	nInter := flag.Int("interleave", 18, "cases")
@@ -452,6 +507,7 @@ func main() {
 	all := []string{"sqlite-file", "sqlite-file", "sqlite-mem", "cosmos-fake"}
 	sq := []string{"sqlite-file", "sqlite-file", "sqlite-mem"}
 	famPlant(e, root, *nPlant, all)
+	famPlantCosmos(e, root, *nPlantCz)
 	famSubmit(e, root, *nSubmit, sq)
 	famDup(e, root, *nDup, all)
 	famInterleave(e, root, *nInter, all)
